@@ -570,3 +570,118 @@ func After(pos string) {
 // imposed schedule: switch the baton scheduler off for this run even if the replay file
 // carries one. A no-op under the symbolic executor (see engine/intrinsics_c19.go).
 func FreeRun() { schedOn = false }
+
+// ---------------------------------------------------------------------------------------
+// Native disk faults and crash points: the replay overlay rewrites os.OpenFile / Rename /
+// Remove / ReadFile and (*os.File).Write / Sync / Close of the package under test into these
+// wrappers. They count effects, fail the faultAt-th one, and "crash" (panic DiskCrash) before
+// the crashAt-th one; after a crash, unsynced tails are cut back to the model's torn length.
+
+type DiskCrash struct{}
+
+var (
+	diskOn      bool
+	diskEffects int
+	diskCrashAt = -1
+	diskFaultAt = -1
+	diskSynced  = map[string]int64{}
+	diskNames   = map[*os.File]string{}
+)
+
+// NativeDisk arms the wrappers (native replay only; symbolically the harness' own disk model runs).
+func NativeDisk(crashAt, faultAt int) {
+	diskOn, diskEffects, diskCrashAt, diskFaultAt = true, 0, crashAt, faultAt
+	diskSynced = map[string]int64{}
+}
+
+// DiskTear cuts the unsynced tail of name back to keep bytes beyond its synced length.
+func DiskTear(name string, keep int64) {
+	synced, tracked := diskSynced[name]
+	if !tracked {
+		return // never written through the wrappers: fully durable
+	}
+	fi, err := os.Stat(name)
+	if err != nil {
+		return
+	}
+	n := synced + keep
+	if n < fi.Size() {
+		os.Truncate(name, n)
+	}
+}
+
+func diskEffect() error {
+	if !diskOn {
+		return nil
+	}
+	k := diskEffects
+	diskEffects++
+	if k == diskCrashAt {
+		panic(DiskCrash{})
+	}
+	if k == diskFaultAt {
+		return fmt.Errorf("verif: injected disk fault at effect %d", k)
+	}
+	return nil
+}
+
+func OSOpenFile(name string, flag int, perm os.FileMode) (*os.File, error) {
+	if err := diskEffect(); err != nil {
+		return nil, err
+	}
+	f, err := os.OpenFile(name, flag, perm)
+	if err == nil && diskOn {
+		diskNames[f] = name
+		if flag&os.O_TRUNC != 0 {
+			diskSynced[name] = 0
+		} else if _, ok := diskSynced[name]; !ok {
+			if fi, e := f.Stat(); e == nil {
+				diskSynced[name] = fi.Size()
+			}
+		}
+	}
+	return f, err
+}
+
+func OSWrite(f *os.File, b []byte) (int, error) {
+	if err := diskEffect(); err != nil {
+		return 0, err
+	}
+	return f.Write(b)
+}
+
+func OSSync(f *os.File) error {
+	if err := diskEffect(); err != nil {
+		return err
+	}
+	err := f.Sync()
+	if err == nil && diskOn {
+		if fi, e := f.Stat(); e == nil {
+			diskSynced[diskNames[f]] = fi.Size()
+		}
+	}
+	return err
+}
+
+func OSClose(f *os.File) error { return f.Close() }
+
+func OSRename(a, b string) error {
+	if err := diskEffect(); err != nil {
+		return err
+	}
+	err := os.Rename(a, b)
+	if err == nil && diskOn {
+		diskSynced[b] = diskSynced[a]
+		delete(diskSynced, a)
+	}
+	return err
+}
+
+func OSRemove(name string) error {
+	if err := diskEffect(); err != nil {
+		return err
+	}
+	return os.Remove(name)
+}
+
+func OSReadFile(name string) ([]byte, error) { return os.ReadFile(name) }
